@@ -193,6 +193,8 @@ static long double omega_of(const lc *A, int op, const lc *X, const lc *B, int n
     return w;
 }
 
+static unsigned long out_hash(const SCALAR *x, int ldx, int nrhs, long info, double rcond, double rpg, const REAL *ferr, const REAL *berr);
+static unsigned long gssv_hash(const SCALAR *b, int ldb, int nrhs, long info) { return out_hash(b, ldb, info == 0 ? nrhs : 0, info, 0, 0, 0, 0); }
 /* ------------------------------------------------------------------ simple driver */
 static void cmd_gssv(kv_t *K)
 {
@@ -232,9 +234,10 @@ static void cmd_gssv(kv_t *K)
 	}
 	vrt_log_raw("\"e\":\"Call\",\"call\":\"gssv\",\"P\":%d,\"n\":%d,\"stype\":%d,\"nrhs\":%d,\"pad\":%d,\"ver\":%d,\"info\":%ld,\"xerbla\":%d,\"xinfo\":%d,"
 		    "\"Aunch\":%d,\"Bunch\":%d,\"padok\":%d,\"permc\":%d,\"permr\":%d,\"extract\":%d,\"recon\":%ld,\"maxl\":%ld,\"resid\":%ld,"
-		    "\"thr0\":%d,\"thr1\":%d,\"fd0\":%d,\"fd1\":%d,\"live0\":%ld,\"live1\":%ld",
+		    "\"thr0\":%d,\"thr1\":%d,\"fd0\":%d,\"fd1\":%d,\"live0\":%ld,\"live1\":%ld,\"outh\":\"%lx\"",
 		    P, n, S.stype, nrhs, ldb - n, S.ver, (long) info, vrt_xerbla_count, vrt_xerbla_info, Aunch, Bunch, padding_ok(b, nrhs, ldb),
-		    is_perm(S.perm_c, n), (info >= 0 && info <= n) ? is_perm(S.perm_r, n) : -1, extract, recon, maxl, resid, thr0, thr1, fd0, fd1, live0, live1);
+		    is_perm(S.perm_c, n), (info >= 0 && info <= n) ? is_perm(S.perm_r, n) : -1, extract, recon, maxl, resid, thr0, thr1, fd0, fd1, live0, live1,
+		    (info >= 0 && info <= n) ? gssv_hash(b, ldb, nrhs, info) : (unsigned long) info);
     }
     S.factver = S.ver; S.equed = NOEQUIL;
     Destroy_SuperMatrix_Store(&B); SUPERLU_FREE(b); free(bcopy); free(Xtrue); free(B0); SUPERLU_FREE(pc_in);
@@ -245,6 +248,27 @@ static REAL mach_eps(void) { return (REAL) slamch_("E"); }     /* declared in th
 #else
 static REAL mach_eps(void) { return (REAL) dlamch_("E"); }
 #endif
+/* hash of everything a call hands back (bitwise): X, info, factors, permutations, scalars */
+static unsigned long out_hash(const SCALAR *x, int ldx, int nrhs, long info, double rcond, double rpg, const REAL *ferr, const REAL *berr)
+{
+    unsigned long h = 1469598103934665603ul ^ (unsigned long) info; int c, n = S.n;
+    for (c = 0; c < nrhs; ++c) h = h * 1099511628211ul ^ fnv(x + (long) c * ldx, sizeof(SCALAR) * n);
+    if (info >= 0 && info <= n + 1) {
+	h = h * 31 + fnv(S.perm_r, sizeof(int_t) * n); h = h * 31 + fnv(S.perm_c, sizeof(int_t) * n);
+	if (S.haveLU) {
+	    SCPformat *Ls = (SCPformat *) S.L.Store; NCPformat *Us = (NCPformat *) S.U.Store; int j;
+	    for (j = 0; j < n; ++j) {
+		h = h * 31 + fnv((SCALAR *) Ls->nzval + Ls->nzval_colbeg[j], sizeof(SCALAR) * (Ls->nzval_colend[j] - Ls->nzval_colbeg[j]));
+		h = h * 31 + fnv((SCALAR *) Us->nzval + Us->colbeg[j], sizeof(SCALAR) * (Us->colend[j] - Us->colbeg[j]));
+		h = h * 31 + fnv(Us->rowind + Us->colbeg[j], sizeof(int_t) * (Us->colend[j] - Us->colbeg[j]));
+	    }
+	    for (j = 0; j <= Ls->nsuper; ++j) { int f = Ls->sup_to_colbeg[j]; h = h * 31 + fnv(Ls->rowind + Ls->rowind_colbeg[f], sizeof(int_t) * (Ls->rowind_colend[f] - Ls->rowind_colbeg[f])); }
+	}
+	if (info == 0 || info == n + 1) { h = h * 31 + fnv(&rcond, sizeof rcond); h = h * 31 + fnv(&rpg, sizeof rpg);
+	    if (nrhs > 0 && ferr) { h = h * 31 + fnv(ferr, sizeof(REAL) * nrhs); h = h * 31 + fnv(berr, sizeof(REAL) * nrhs); } }
+    }
+    return h;
+}
 /* ------------------------------------------------------------------ expert driver */
 static trans_t tr_of(const char *s) { return s[0] == 'T' ? TRANS : s[0] == 'C' ? CONJ : NOTRANS; }
 static void cmd_gssvx(kv_t *K)
@@ -253,7 +277,8 @@ static void cmd_gssvx(kv_t *K)
     const char *facts = kv_s(K, "fact", "DOFACT"), *trs = kv_s(K, "trans", "N"); int op = trs[0] == 'T' ? 1 : trs[0] == 'C' ? 2 : 0;
     fact_t fact = !strcmp(facts, "FACTORED") ? FACTORED : !strcmp(facts, "EQUILIBRATE") ? EQUILIBRATE : DOFACT;
     int refact = (int) kv_i(K, "refact", 0), usepr = (int) kv_i(K, "usepr", 0), sym = (int) kv_i(K, "sym", 0);
-    long lwork = kv_i(K, "lwork", 0); double u = kv_d(K, "u", 1.0);
+    const char *lws = kv_s(K, "lwork", "0"); int autopct = !strncmp(lws, "auto", 4) ? atoi(lws + 4) : 0;
+    long lwork = autopct ? 1 : kv_i(K, "lwork", 0); double u = kv_d(K, "u", 1.0);
     SCALAR *b, *x, *bin; lc *Xtrue, *B0; SuperMatrix B, X; int_t info = -99;
     REAL rpg = -1, rcond = -1, *ferr = (REAL *) calloc(nrhs + 1, sizeof(REAL)), *berr = (REAL *) calloc(nrhs + 1, sizeof(REAL));
     superlu_memusage_t mu; unsigned long ckv, cki, ckp, ckpr, ckpc, ckL = 0; long live0, live1; int thr0, thr1;
@@ -271,6 +296,23 @@ static void cmd_gssvx(kv_t *K)
     G(Create_Dense_Matrix)(&B, n, nrhs, b, ldb, SLU_DN, SLU_DT, SLU_GE);
     G(Create_Dense_Matrix)(&X, n, nrhs, x, ldx, SLU_DN, SLU_DT, SLU_GE);
     if (fact != FACTORED && !refact) destroy_LU();
+    if (autopct && fact != FACTORED && !refact) {
+	/* size the caller's workspace as a user would: ask the library (lwork = -1), take autopct % of its estimate */
+	superlumt_options_t q; superlu_memusage_t qm; int_t qinfo = 0; SuperMatrix QB, QX; equed_t qe = NOEQUIL; REAL qr = 0, qc = 0;
+	SCALAR *qb = scalarMalloc(n), *qx = scalarMalloc(n); SCALAR *vsave = (SCALAR *) malloc(sizeof(SCALAR) * (S.nnz + 1));
+	int_t *pcs = intMalloc(n), *prs = intMalloc(n);
+	memcpy(vsave, S.val, sizeof(SCALAR) * S.nnz); memcpy(pcs, S.perm_c, sizeof(int_t) * n); memcpy(prs, S.perm_r, sizeof(int_t) * n);
+	for (i = 0; i < n; ++i) qb[i] = mk_scalar(1, 0);
+	G(Create_Dense_Matrix)(&QB, n, 1, qb, n, SLU_DN, SLU_DT, SLU_GE); G(Create_Dense_Matrix)(&QX, n, 1, qx, n, SLU_DN, SLU_DT, SLU_GE);
+	memset(&q, 0, sizeof q); memset(&qm, 0, sizeof qm);
+	q.nprocs = P; q.fact = DOFACT; q.trans = NOTRANS; q.refact = NO; q.panel_size = sp_ienv(1); q.relax = sp_ienv(2); q.diag_pivot_thresh = u; q.usepr = NO;
+	q.SymmetricMode = sym ? YES : NO; q.PrintStat = NO; q.perm_c = S.perm_c; q.perm_r = S.perm_r; q.work = 0; q.lwork = -1;
+	q.etree = S.etree; q.colcnt_h = S.colcnt; q.part_super_h = S.part;
+	PG(gssvx)(P, &q, &S.A, S.perm_c, S.perm_r, &qe, S.R, S.C, &S.L, &S.U, &QB, &QX, &qr, &qc, ferr, berr, &qm, &qinfo);
+	lwork = (long) ((double) qm.total_needed * autopct / 100.0) + 64;
+	memcpy(S.val, vsave, sizeof(SCALAR) * S.nnz); memcpy(S.perm_c, pcs, sizeof(int_t) * n); memcpy(S.perm_r, prs, sizeof(int_t) * n);
+	Destroy_SuperMatrix_Store(&QB); Destroy_SuperMatrix_Store(&QX); SUPERLU_FREE(qb); SUPERLU_FREE(qx); free(vsave); SUPERLU_FREE(pcs); SUPERLU_FREE(prs);
+    } else if (autopct) lwork = S.lwork > 0 ? S.lwork : 1;
     if (lwork > 0) { if (lwork > WORKMAX) lwork = WORKMAX; S.lwork = lwork; }
     S.opt.nprocs = P; S.opt.fact = fact; S.opt.trans = tr_of(trs); S.opt.refact = refact ? YES : NO;
     S.opt.panel_size = sp_ienv(1); S.opt.relax = sp_ienv(2); S.opt.diag_pivot_thresh = u; S.opt.usepr = usepr ? YES : NO;
@@ -386,13 +428,14 @@ static void cmd_gssvx(kv_t *K)
 	vrt_log_raw("\"e\":\"Call\",\"call\":\"gssvx\",\"P\":%d,\"n\":%d,\"stype\":%d,\"fact\":\"%s\",\"refact\":%d,\"usepr\":%d,\"trans\":\"%c\",\"lwmode\":%d,\"nrhs\":%d,\"sym\":%d,"
 		    "\"ver\":%d,\"factver\":%d,\"info\":%ld,\"xerbla\":%d,\"xinfo\":%d,\"equed\":%d,\"Aok\":%d,\"Aunch\":%d,\"Bok\":%d,\"Xunch\":%d,\"permunch\":%d,\"Lunch\":%d,"
 		    "\"permc\":%d,\"permr\":%d,\"omega\":%ld,\"berrdev\":%ld,\"berrabs\":%ld,\"ferrok\":%ld,\"rclo\":%ld,\"rchi\":%ld,\"rpgdev\":%ld,\"cond\":%ld,"
-		    "\"rcondsmall\":%d,\"needed\":%ld,\"inside\":%d,\"thr0\":%d,\"thr1\":%d,\"live0\":%ld,\"live1\":%ld,\"u1000\":%d,\"prpc\":%d",
+		    "\"rcondsmall\":%d,\"needed\":%ld,\"inside\":%d,\"thr0\":%d,\"thr1\":%d,\"live0\":%ld,\"live1\":%ld,\"u1000\":%d,\"prpc\":%d,\"outh\":\"%lx\"",
 		    P, n, S.stype, facts, refact, usepr, trs[0], lwork > 0 ? 1 : (int) lwork, nrhs, sym, S.ver, S.factver, (long) info, vrt_xerbla_count, vrt_xerbla_info, eqv,
 		    Aok, Aunch, Bok, Xunch, permunch, Lunch, is_perm(S.perm_c, n), S.haveLU ? is_perm(S.perm_r, n) : -1,
 		    omega, berrdev, berrabs, ferrok, rc_lo, rc_hi, rpgdev, condk,
 		    (rcond >= 0 && rcond < mach_eps()) ? 1 : 0, (long) (mu.total_needed > 2000000000.0f ? 2000000000L : (long) mu.total_needed),
 		    (S.haveLU && S.LUuser) ? ((char *) ((SCPformat *) S.L.Store)->nzval >= (char *) S.work && (char *) ((SCPformat *) S.L.Store)->nzval < (char *) S.work + S.lwork) : -1,
-		    thr0, thr1, live0, live1, (int) (u * 1000), (S.haveLU && !memcmp(S.perm_r, S.perm_c, sizeof(int_t) * n)) ? 1 : 0);
+		    thr0, thr1, live0, live1, (int) (u * 1000), (S.haveLU && !memcmp(S.perm_r, S.perm_c, sizeof(int_t) * n)) ? 1 : 0,
+		    out_hash(x, ldx, nrhs, info, (double) rcond, (double) rpg, ferr, berr));
     }
     Destroy_SuperMatrix_Store(&B); Destroy_SuperMatrix_Store(&X); SUPERLU_FREE(b); SUPERLU_FREE(x); free(bin); free(vin); free(Xtrue); free(B0); free(ferr); free(berr);
 }
